@@ -78,7 +78,8 @@ fn agrees_verdict(exp: &Result<Val, Viol>, obs: &Outcome) -> Result<(), &'static
 pub fn c01(cx: &Ctx) -> Report {
     let tier = cx.tier;
     let mut rep = for_subjects(cx, "C01", |_| true, |i, d, s, r| {
-        let dom = domain::domain(d, tier);
+        // thorough: every fourth string subject is explored on all strings up to length 5 (5.4 M inputs)
+        let dom = if tier == Tier::Thorough && d.family() == Family::Str && i % 4 == 0 { domain::string_domain_len(tier, d, 5) } else { domain::domain(d, tier) };
         let mut stored: HashSet<Val> = HashSet::new();
         let mut changed = 0u64;
         let mut errs = 0u64;
@@ -151,7 +152,7 @@ pub fn c01(cx: &Ctx) -> Report {
         rep.merge(sweep);
     }
     rep.rule = "every (declaration, raw input) of the bounded domain is run through the real constructor and compared with REF (verdict + stored bits); non-trivial = input rejected or changed by sanitisation".into();
-    rep.bounds.insert("domain".into(), json!("ints: whole type for 8/16-bit, ±8 around pivots otherwise; f32/f64 structured sets (all 2^32 f32 patterns on designated subjects in thorough); strings Σ^≤L (L=3 quick, 4 thorough)"));
+    rep.bounds.insert("domain".into(), json!("ints: whole type for 8/16-bit, ±8 around pivots otherwise; f32/f64 structured sets (all 2^32 f32 patterns on designated subjects in thorough); strings Σ^≤L over 22 characters (L=3 quick, 4 thorough, 5 on every fourth string subject in thorough)"));
     rep
 }
 
